@@ -41,7 +41,12 @@ func (conn *Conn) delSTHandlers() {
 // Handle NICK messages that need to update the state tracker
 func (conn *Conn) h_STNICK(line *Line) {
 	// all nicks should be handled the same way, our own included
-	conn.st.ReNick(line.Nick, line.Args[0])
+	nk := conn.st.ReNick(line.Nick, line.Args[0])
+	// ... except that cfg.Me, which REGISTER sends the next connection's
+	// NICK from, must not be left holding our previous nick.
+	if nk != nil && line.Nick == conn.cfg.Me.Nick {
+		conn.cfg.Me = nk
+	}
 }
 
 // Handle JOINs to channels to maintain state
